@@ -5,7 +5,7 @@ ROOT = os.path.dirname(os.path.dirname(os.path.abspath(__file__)))
 
 TRUSTED = ("Trusted: clang 14 TSan instrumentation pass (routes every atomic and plain access to the simulator), "
            "the simulator runtime and oracles in /verif, libstdc++/abseil/protobuf/glibc as uninstrumented stubs executing atomically between scheduling points. "
-           "Memory model explored: SC interleavings + per-thread store buffers (TSO/PSO) + happens-before check on registered payload; no load buffering, no weak-CAS spurious failure; scheduling points before every atomic/fence/intercepted call, after publishing operations in 40% of the runs, and at plain accesses to registered ranges. "
+           "Memory model explored: SC interleavings + per-thread store buffers (TSO/PSO) + happens-before check on registered payload; no load buffering, no weak-CAS spurious failure; scheduling points before every atomic/fence/intercepted call, after publishing operations in 40% of the runs (in a quarter of those the publisher is additionally stalled for 30-400 steps), and at plain accesses to registered ranges. "
            "Sampling, not exhaustive.")
 
 CLAIMED = {
@@ -25,7 +25,7 @@ CLAIMED["C07"] = dict(
     text="Real ThreadPoolExecutor (1-3 workers, and a wide shape with 130-138 workers whose local queues span two storage blocks; local queues, work stealing, balance thread; which waiter a wake-up picks is a scheduler decision), AlwaysUseNewThreadExecutor, InplaceExecutor and a harness executor that refuses drawn submissions, all running under the simulator; external submitters, tasks that spawn tasks (placement local/global predicted through the pool's own rule), plain and coroutine execute/submit, stop() after or while submitters run, destructor instead of stop. Oracles: run-count ledger (exactly once, never after stop returned, never when refused), is_running_in, future ready with the right value at stop()/join return, refused submissions reported (invalid future / non-zero), coroutine frame destroyed exactly once. Found one genuine defect (fixed).",
     ref="§3 C07", technique="deterministic simulation: seeded schedule search over the real thread pool, run ledger and future-readiness oracle, executor fault injection")
 CLAIMED["C09"] = dict(
-    text="The client protocol the property describes on the real Epoch (readers in thread-local or Accessor regions, nested, handed between threads; writers unlink, tick, poll low_water_mark, reclaim) explored with store buffering always on (lazy commits), which is what exposes a weakened or missing seq_cst fence in lock() although the host is x86; oracle: at the moment low_water_mark reaches a tick no reader still inside the region in which it obtained the unlinked object may hold it; reads of reclaimed objects; released/unlocked accessors must not hold the mark back.",
+    text="The client protocol the property describes on the real Epoch (readers in thread-local or Accessor regions, nested, handed between threads; writers unlink, tick, poll low_water_mark, reclaim) explored with store buffering always on (lazy commits), which is what exposes a weakened or missing seq_cst fence in lock() although the host is x86; oracle: at the moment low_water_mark reaches a tick no reader still inside the region in which it obtained the unlinked object may hold it; reads of reclaimed objects; released/unlocked accessors must not hold the mark back; black-box reader self check (a tick the reader takes inside its own open region must stay above low_water_mark()); accessor create/use/release churn across threads (recycled slot indexes).",
     ref="§3 C09", technique="deterministic simulation: seeded schedule + store-buffer (TSO/PSO) delay search, reclamation-safety oracle")
 CLAIMED["C10"] = dict(
     text="Real GarbageCollector (queue capacity 1-4) with retiring threads, reader threads opening/closing regions after a drawn number of their own steps, and stop()/destructor issued at drawn points including while regions are open, while retire() is blocked on a full queue and while the collector is in its usleep back-off (virtual time); oracle: reclaimer ledger (exactly once, never before the regions open at retire time closed, all run by the time stop() returns). Found one genuine defect (fixed).",
@@ -39,7 +39,7 @@ CLAIMED["C16"] = dict(
     ref="§3 C16", technique="deterministic simulation: seeded schedule + executor-fault search, exactly-once/order ledger, quiescence oracle")
 
 CLAIMED["C03"] = dict(
-    text="Real ConcurrentFixedSwissTable / ConcurrentTransientHashSet / Map in two build flavours (as shipped: 16-byte SIMD group load; with babylon's own TSan branch: 16 relaxed byte loads, a reader can see a group half-updated) under an adversarial hasher (colliding groups, equal 7-bit tags), default-constructed placeholder and small initial bucket counts, fill-to-full and chained growth, with scheduling points on control bytes and value storage. History oracle per key: exactly one winner, same address and fully constructed content for every observer, no miss after an ordered-before insertion (happens-before judged under store buffers), full fixed table leaves arguments untouched, one in-table construction per winner; quiescent iteration/size. Two genuine defects found (fixed).",
+    text="Real ConcurrentFixedSwissTable / ConcurrentTransientHashSet / Map in two build flavours (as shipped: 16-byte SIMD group load; with babylon's own TSan branch: 16 relaxed byte loads, a reader can see a group half-updated) under an adversarial hasher (colliding groups, equal 7-bit tags), default-constructed placeholder and small initial bucket counts, fill-to-full and chained growth, with scheduling points on control bytes and value storage. History oracle per key: exactly one winner, same address and fully constructed content for every observer, no miss after an ordered-before insertion (happens-before judged under store buffers), full fixed table leaves arguments untouched, one in-table construction per winner; quiescent iteration/size; growth-boundary read-your-write shape (chain prefilled to just below a table boundary, own fresh keys looked up right after insertion, publisher stalled after publishing). Two genuine defects found (fixed).",
     ref="§3 C03", technique="deterministic simulation: seeded schedule search in two instrumentation flavours, per-key history oracle")
 CLAIMED["C04"] = dict(
     text="Real ConcurrentVector (static and dynamic block sizes incl. 1) with 2-4 threads racing for the same new blocks, kept snapshots, gc(), and a virtual clock started near 64 s unit boundaries and near the 16-bit timestamp wrap, jumped by 0-200 s between rounds; a directed mode stalls one thread for > 64 s between reading the clock and publishing its retire node. Oracles: index->address map, constructor/destructor ledger by address (speculative blocks of CAS losers included), cooling period measured from a watchpoint on the block table to the simulated heap's free time, use-after-free through kept snapshots, heap balance. One genuine defect found (fixed).",
@@ -54,7 +54,7 @@ CLAIMED["C11"] = dict(level="fault_enumeration", engine="serial",
     text="Stream-fault harness without scheduler (there are no threads or clocks in this property): the environment is the byte stream the parser consumes, owned by the harness through ZeroCopyInput/OutputStream. 84 value shapes incl. protobuf messages; oracle 1: round trip, exact size, stable output, 18 presentations (flat, string, stream chunkings 1/2/3/7/random/zero-size buffers, with and without enclosing limit), protobuf differential in both directions incl. unknown/permuted/absent fields; oracle 2: truncation at every prefix for encodings <= 256 bytes (drawn above), byte flips, length inflation up to 2^64-1, wire-type swaps, nesting, Next() failure, splices, random bytes: parse must terminate, no ASan report, no read beyond the limit, success implies serialize/parse fixpoint. Debug and NDEBUG builds, ASan+UBSan. Three genuine defects fixed, one listed as known finding.",
     ref="§3 C11", technique="stream fault injection (chunking, truncation, corruption, Next() failure) with seeded enumeration, ASan/UBSan, differential and fixpoint oracles")
 CLAIMED["C14"] = dict(
-    text="Real IdAllocator (head version preset near wrap as a legal history prefix), ThreadId over generations of thread birth/death, and DepositBox with recycled slots and stale ids, ids handed between threads only through synchronising channels; oracles: held-set uniqueness at the moment of return, reuse of freed values, for_each == live set at quiescence, distinct stable thread ids with reuse after exit, single taker, stale id never matches, exclusive winner (ownership flag + HB detector kept across slot recycling), constructor/destructor ledger.",
+    text="Real IdAllocator (head version preset near wrap as a legal history prefix), ThreadId over generations of thread birth/death, and DepositBox with recycled slots and stale ids, ids handed between threads only through synchronising channels; oracles: held-set uniqueness at the moment of return, reuse of freed values, for_each == live set at quiescence, distinct stable thread ids with reuse after exit, single taker (whose accessor is kept, move-constructed, move-assigned or parked on the heap; the moved-from one must be empty), stale id never matches, exclusive winner (ownership flag + HB detector kept across slot recycling), constructor/destructor ledger.",
     ref="§3 C14", technique="deterministic simulation: seeded schedule search (ABA windows), held-set and single-winner oracles")
 CLAIMED["C15"] = dict(
     text="Real ConcurrentTransientTopic with 1-3 publishers (single and batch, batches crossing the 128-slot block boundary), 1-3 consumers subscribed before/during/after publication with varying batch sizes, close() racing with the last wake-up, 1-3 publish/close/clear cycles; store buffering and futex spurious wakes. Oracle: every consumer's output is exactly the published index sequence with fully visible content (HB race detector on slot payload), publishers never share a slot, end marker only after everything was delivered, consumers terminate (deadlock verdict), clear resets.",
